@@ -86,14 +86,14 @@ def perturbations(text):
 
 def run(tier):
     res = Result(PID)
-    names = ["a", "75c8c", "12", "x y", None, "né"]
+    names = ["a", "75c8c", "12", "x y", None, "né", "10.0.0.7", "2017-11-05 15:17", "7", "-", "a-b.c:d"]
     stamps = [(_dt.datetime(2017, 11, 5, 15, 17, 39, 424492), 137), (_dt.datetime(1999, 12, 31, 23, 59, 59, 999000), 997),
               (_dt.datetime(2030, 1, 1, 0, 0, 0, 0), 0)]
     n = 0
     kinds = set()
     samples = []
     for name in names:
-        for nrec in (1, 2, 3, 4):
+        for nrec in ((1, 2, 3, 4) if tier == "quick" else (1, 2, 3, 4, 5, 6, 7)):
             base_text = make_trace(name, nrec, *stamps[0])
             base_strip = strip(base_text)
             want = [l.split("] ", 1)[1] for l in lines_of(base_text)]
@@ -131,7 +131,7 @@ def run(tier):
                             single, alone, inside), {"line": single}))
     res.coverage = {"evaluations": n, "distinct_nontrivial": len(kinds), "states": len(kinds), "transitions": n,
                     "traces_validated_against_impl": n,
-                    "rule": "traces produced by a real queued chart (names %r, 1-4 records, 3 clock scripts) x catalogue of %d "
+                    "rule": "traces produced by a real queued chart (names %r, 1-4 (thorough 1-7) records, 3 clock scripts) x catalogue of %d "
                             "perturbations + single-line forms; distinct = (perturbation, records, chart name)" % (names, 15),
                     "samples": samples, "exhaustive": True}
     res.assumptions = ["state / signal / chart names contain no brackets or newlines"]
